@@ -16,7 +16,9 @@ LEVEL = ('decides the structural discipline of the branching module: every varia
          '(N6); the sparse-set protocol used by the random selector is honoured by the container (N7);'
          " every value selector's predicate has one of the confirmed undecided shapes (N8). "
          'Assignments::evaluate_predicate, by which decidedness is judged, is exact on every domain '
-         'shape of a 5-value universe (N10). Does not decide undecidedness for every domain shape')
+         'shape of a 5-value universe (N10). ProportionalDomainSize indexes its variables only through'
+         ' the weight→variable map (N11 INDEX-SPACE). Does not decide undecidedness for every domain '
+         'shape')
 TECHNIQUE = "static analysis: FORWARD-ALL / OVERRIDE⇒DECLARE sibling rules, dominance and shape tables over rustc MIR"
 
 TRAITS = {"Brancher": "branching::brancher::Brancher",
